@@ -29,6 +29,7 @@ package keyed
 //@ ghostmap recof: ref -> ref once
 //@ ghostmap addedidx: any -> int local
 //@ ghostmap removedidx: any -> int local
+//@ ghostmap kidx: any -> int local
 //
 //@ object Keyed
 //@   props C06 C07 C13
@@ -214,6 +215,20 @@ package keyed
 //@   assert unlock 1: requested: forall j: int {keys[j]} :: 0 <= j && j < len(keys) ==> in(k.routines, keys[j]) && k.routines[keys[j]].deferRemove == nil
 //@   assert unlock 1: unrequested: forall key: any {k.routines[key]} :: in(k.routines, key) && !in(routines, key) ==> k.routines[key].deferRemove != nil && k.releaseDelay != 0
 //@   assert unlock 1: nonew: forall key: any {k.routines[key]} :: in(k.routines, key) ==> csold(in(k.routines, key)) || in(routines, key)
+//
+// GetKeys: the result lists exactly the keys of the map, each once (index witness kidx). In the code the loop
+// variable shadows the receiver: in contract clauses `k` is always the receiver; the key just appended is keys[len(keys)-1].
+//@ func (*Keyed).GetKeys
+//@   props C06 C13
+//@   opt frame = skip
+//@   requires k != nil
+//@   loop 1 invariant own: arr(keys) == nil || allocated(arr(keys))
+//@   loop 1 invariant sound: forall j: int {keys[j]} :: 0 <= j && j < len(keys) ==> visited(keys[j]) && in(k.routines, keys[j])
+//@   loop 1 invariant index: forall j: int {keys[j]} :: 0 <= j && j < len(keys) ==> kidx(keys[j]) == j
+//@   loop 1 invariant complete: forall key: any {kidx(key)} :: visited(key) ==> 0 <= kidx(key) && kidx(key) < len(keys) && keys[kidx(key)] == key
+//@   ghost backedge 1: kidx(keys[len(keys) - 1]) := len(keys) - 1
+//@   assert unlock 1: list: (forall j: int {result[j]} :: 0 <= j && j < len(result) ==> in(k.routines, result[j]) && kidx(result[j]) == j) && (forall key: any {k.routines[key]} :: in(k.routines, key) ==> 0 <= kidx(key) && kidx(key) < len(result) && result[kidx(key)] == key)
+//@   assert unlock 1: unchanged: forall key2: any {k.routines[key2]} :: in(k.routines, key2) == csold(in(k.routines, key2)) && k.routines[key2] == csold(k.routines[key2])
 //
 //@ func (*Keyed).GetKey
 //@   props C06 C13
